@@ -127,7 +127,7 @@ def run_det_family(prop, tier, seed):
 
 def run_arch_family(prop, tier, seed):
     from . import family_arch
-    nwl, nsched = {"quick": (32, 8), "thorough": (480, 30)}[tier]
+    nwl, nsched = {"quick": (16, 6), "thorough": (480, 30)}[tier]
     ev = Evidence(prop, tier, seed, "exploration")
     ev.rule = ("archgen link line (plain objects, archives, thin archives, whole-archive regions, strong "
                "and weak cross references, a symbol defined by two members, every fourth workload with "
@@ -146,7 +146,7 @@ def run_arch_family(prop, tier, seed):
 
 
 FS_BUDGET = {
-    "C17": {"quick": (12, 10), "thorough": (96, 60)},
+    "C17": {"quick": (6, 6), "thorough": (96, 60)},
     "C18": {"quick": (24, 10), "thorough": (240, 40)},
     "C19": {"quick": (24, 10), "thorough": (240, 40)},
 }
@@ -275,7 +275,7 @@ REQUIRED_PROBES = {
     "C20": ["inwindow_role_object", "inwindow_role_archive", "inwindow_role_thin-archive-index",
             "inwindow_role_thin-member", "inwindow_role_linker-script", "inwindow_role_script-input",
             "detected", "window_after-verify-start"],
-    "C17": ["fault_fired_panic", "fault_fired_abort", "fault_fired_alloc", "fault_fired_segv",
+    "C17": ["fault_fired_fsize", "fault_fired_panic", "fault_fired_abort", "fault_fired_alloc", "fault_fired_segv",
             "fault_fired_kill", "fault_fired_err", "fork", "nofork"],
     "C18": ["probe_error_exit_before_creator_ran", "fault_fired_err", "prior_busy"],
     "C19": ["prior_busy", "probe_busy_output_relinked"],
